@@ -463,8 +463,17 @@ func setProp(p mq.Packet, id byte, n uint32, b []byte, probe bool) bool {
 // values with a model switch it on (props.Configure: C10, C11, C13).
 var WillExtras = false
 
+// WillDup: whether BuildWill may set the DUP flag on the message before it is
+// attached (a PUBLISH that was already used for a delivery attempt). A CONNECT
+// does not carry a will DUP; checks that compare the BUILT packet's will values
+// with a model leave it off.
+var WillDup = false
+
 func BuildWill(w *ref.Will) *mq.Publish {
 	p := mq.NewPublish()
+	if WillDup && (len(w.Payload)+len(w.Topic))%3 == 1 {
+		p.SetDuplicate(true)
+	}
 	if WillExtras && len(w.Topic)%3 == 1 {
 		p.SetPacketID(uint16(7 + len(w.Payload)))
 		p.SetTopicAlias(uint16(1 + len(w.Payload)%90))
